@@ -16,6 +16,7 @@ for N in 1 2; do
   [ -f _seed/patch$N.diff ] || continue
   git checkout -q -- . ; git clean -fdq numbat/tests 2>/dev/null
   bash _seed/demo$N.cmd > _seed/confirm_demo${N}_clean.log 2>&1; RC_CLEAN=$?
+  rm -f numbat/tests/seed_*.rs
   if git apply _seed/patch$N.diff; then APPLY=0; else APPLY=1; fi
   nice cargo build --offline -j6 -p numbat > _seed/confirm_build$N.log 2>&1; RC_BUILD=$?
   nice cargo test --workspace --no-fail-fast --offline -j6 > _seed/confirm_test$N.log 2>&1; RC_TEST=$?
